@@ -40,7 +40,11 @@ def scenarios(quick):
               (R(T.tee_rejoin2(maxseq=4, skip=(), slowB=True, explicit_b=True)), 6 if quick else 100, 2500),
               (R(T.join2(maxseq=4)), 6 if quick else 100, 1500),
               (R(T.tee(maxseq=4)), 6 if quick else 100, 1500),
-              (R(T.chain3_lazy(maxseq=4)), 6 if quick else 100, 1500)],
+              (R(T.chain3_lazy(maxseq=4)), 6 if quick else 100, 1500),
+              # a branch whose subscribed topic is absent on odd frames (completed by the topics message) next to a slow branch
+              (R(T.tee_rejoin_absent(maxseq=6)), 8 if quick else 120, 3000)],
+        # required consumers whose ids are prefixes of one another, the shorter-named one joining late
+        late=[(T.tee_names(maxseq=5), 8 if quick else 120, 2000)],
     )
 
 
@@ -68,6 +72,9 @@ def run(ctx):
         eng.cover(topos.with_required(topos.chain3(maxseq=1)), 'SpecPrompt', max_paths=5000)
     for topo, n, steps in sc['rand']:
         eng.random_runs(topo, n, steps, p_timeout=0.0, judgekw=JK, tag='prompt', pipekw=dict(local_clocks=False), validate=2 if ctx.quick else 20)
+    for topo, n, steps in sc['late']:
+        eng.random_runs(topo, n, steps, p_timeout=0.0, judgekw=JK, tag='late-join', pipekw=dict(local_clocks=False),
+                        faults=lambda rng, pipe: [(0, lambda p: p.stall('K')), (rng.randrange(40, 250), lambda p: p.resume('K'))])
     return rep.finish()
 
 
